@@ -176,6 +176,29 @@ def final_state(dassh, r):
     return vals[0], np.concatenate(temps)
 
 
+def printed_tables(dassh, r, r0, u):
+    """The summary table of the run in unit system u against the SI run:
+    flow rate, bulk outlet temperature and peak height are the SI values in
+    the requested units (harness's own factors).  Returns the largest
+    deviations: flow in 1e-6 relative, temperature and height in 1e-3 of
+    the printed unit."""
+    from harness import tables
+    txt = dassh.table.CoolantTempTable().generate(r, None)
+    rows = dict(tables._rows(txt))
+    tf = tt = tl = 0.0
+    if len(rows) < len(r0.assemblies):
+        return 2000000000, 2000000000, 2000000000
+    for i, a in enumerate(r0.assemblies):
+        nums = tables._nums(rows[i + 1])
+        wf = unitsys.to_user(float(a.flow_rate), 'F', u)
+        wt = unitsys.to_user(float(a.avg_coolant_temp), 'T', u)
+        wl = unitsys.to_user(float(a._peak['cool'][1]), 'L', u)
+        tf = max(tf, abs(nums[1] - wf) / wf / 1e-6)
+        tt = max(tt, abs(nums[2] - wt) / 1e-3)
+        tl = max(tl, abs(nums[-1] - wl) / 1e-3)
+    return (int(min(tf, 2e9)), int(min(tt, 2e9)), int(min(tl, 2e9)))
+
+
 def parse_job(args):
     """One problem in a list of unit systems: traces (one per system)."""
     label, case, cbs, sweep_idx, seed = args
@@ -247,7 +270,10 @@ def parse_job(args):
                     same = len(z) == len(z0) and len(t) == len(t0)
                     dz = float(np.max(np.abs(z - z0))) if same else 1.0
                     dt = float(np.max(np.abs(t - t0))) if same else 1e3
+                    tf, tt, tl = printed_tables(dassh, r, r0, u)
                     tr['ev'].append({'e': 'Run', 'nz': len(z),
+                                     'tabflow': tf, 'tabtemp': tt,
+                                     'tablen': tl,
                                      'nzsi': len(z0),
                                      'dz': int(min(dz / 1e-12, 2e9)),
                                      'tol': 10,
